@@ -17,10 +17,11 @@ ADDRS = {
     "ios": ["any", "host 10.0.0.1", "10.0.0.1 0.0.0.0", "10.0.0.0 0.0.0.255", "10.0.0.5 0.0.0.3", "10.0.0.0 0.0.1.3",
             "10.1.2.3 0.255.0.255", "0.0.0.0 255.255.255.255", "1.2.3.4 255.255.255.255", "10.0.0.1/32", "10.0.0.0/24",
             "0.0.0.0/0", "192.168.0.0 0.0.255.255", "172.16.0.0 0.15.255.255", "10.0.0.0 0.0.0.254", "10.1.1.0 128.0.0.255", "1.2.3.4 255.0.0.254",
-            "10.0.0.0 0.0.1.0"],
+            "10.0.0.0 0.0.1.0", "0.0.0.0 0.255.255.255", "0.0.0.0 127.255.255.255", "128.0.0.0 127.255.255.255", "0.0.0.0 0.0.0.255"],
     "nxos": ["any", "10.0.0.1/32", "10.0.0.0/24", "0.0.0.0/0", "host 10.0.0.1", "10.0.0.1 0.0.0.0", "10.0.0.0 0.0.0.255",
              "10.0.0.5 0.0.0.3", "10.0.0.0 0.0.1.3", "10.1.2.3 0.255.0.255", "0.0.0.0 255.255.255.255", "192.168.0.0/16",
-             "172.16.0.0/12", "10.0.0.0 0.0.0.254", "10.1.1.0 128.0.0.255", "1.2.3.4 255.0.0.254", "10.0.0.0 0.0.1.0"],
+             "172.16.0.0/12", "10.0.0.0 0.0.0.254", "10.1.1.0 128.0.0.255", "1.2.3.4 255.0.0.254", "10.0.0.0 0.0.1.0",
+             "0.0.0.0/8", "0.0.0.0 0.255.255.255", "0.0.0.0/1", "128.0.0.0/1", "0.0.0.0/24"],
 }
 
 PORTS_TCP = {
